@@ -15,14 +15,21 @@ THEOREMS = [P + t for t in [
     "C15_priority_table", "C15_most_specific", "C15_one_per_key", "C15_available_iff_effective",
     "C15_local_overrides_parent", "C15_inherited_unless_overridden", "C15_highest_priority", "C15_protocol_first", "C15_protocol_first_specific",
     "C15_protocol_first_generic", "C15_no_protocol", "C15_defaults_value", "C15_defaults_subvalue", "C15_accessors",
-    "C15_accessors_layer", "C15_int_of_decimal", "C15_pinned_get_comparam_counterexample"]]
+    "C15_accessors_layer", "C15_int_of_decimal", "C15_history_independent", "C15_history_lookup",
+    "C15_pinned_get_comparam_counterexample"]]
 RULE = ("documents = 1-4 (thorough: up to 6) layers over PROTOCOL/FUNCTIONAL-GROUP/BASE-VARIANT/ECU-VARIANT/ECU-SHARED-DATA with random "
         "parent refs (DAG, any order of refs), COMPARAM-REFs of simple and complex parameters of the shipped comparam subsets and of a "
         "generated subset (random defaults and sub-parameter lists), with/without PROTOCOL-SNREF, values explicit/omitted/ill-typed, "
-        "complex values full/short/with empty sub-values; loaded through the real XML loader; one case = one (document, layer); "
+        "complex values full/short/with empty sub-values; loaded through the real XML loader; edit histories: such a document, "
+        "then 1-3 steps of 1-3 edits of the live objects (COMPARAM-REF added/removed/replaced/modified in place/reordered, parent refs "
+        "added/removed/re-targeted/reordered, default of a parameter specification changed, layer added) each followed by "
+        "Database.refresh(), lookups before and between the edits in most histories, plus an enumerated small scope (one parameter, "
+        "three layers, every placement x every single edit); one case = one (document or history state, layer); "
         "non-trivial = the layer sees at least one communication parameter")
 TRUSTED = ["model lean/OdxVerif/Model/Comparam.lean is hand-written; tied to hierarchyelement.py/comparaminstance.py by comparing comparam_refs "
-           "(ordered), get_comparam for every (short name, protocol) and all 15 typed accessors on generated documents",
+           "(ordered), get_comparam for every (short name, protocol) and all 15 typed accessors on generated documents and on every "
+           "observed state of the generated edit histories (the model's LayerObj says: lookups read `_comparam_refs` and store nothing, "
+           "refresh() recomputes it; an edit of the live objects is mirrored on the document description by the harness)",
            "Python's int(str)/float(str) are modelled for ASCII input (strip, sign, underscores between digits, decimal/exponent, inf/nan); "
            "the rounding of float(s)/1e6 to binary64 is not modelled: the harness recomputes it from the model's exact decimal",
            "generated priority table Gen/LayerPrio.lean (extractor harness/extract/layerprio.py), cross-checked against the live enum on every run",
@@ -296,6 +303,235 @@ def corpus():
     return docs
 
 
+# ----------------------------------------------------------------------------- edit histories (format: comparam_lib, "edit histories")
+
+def max_tag(h):
+    return max([c["tag"] for L in h["layers"] for c in L["insts"]], default=-1)
+
+
+def rand_op(rng, h, tag, qm):
+    """one random edit of the document `h` (None if the drawn kind does not apply); collisions with keys in use are likely"""
+    cat = CL.catalog(h)
+    layers = h["layers"]
+    he = [i for i, L in enumerate(layers) if L["kind"] != "ECU-SHARED-DATA"]
+    if not he:
+        return None
+    used = [c["id"] for L in layers for c in L["insts"]]
+    all_ids = SHIPPED_IDS + [e[1] for e in h["custom"]]
+    protos = [None, None] + [p for p in CL.protos_of(h)[1:-1]] + ["PA"]
+
+    def new_inst():
+        id_ = rng.choice(used) if used and rng.random() < 0.8 else rng.choice(all_ids)
+        if used and rng.random() < 0.3:          # another specification of the same short name
+            same = [i for i in all_ids if cat[i][2] == cat[id_][2]]
+            id_ = rng.choice(same)
+        form, value = rand_inst_value(rng, cat[id_])
+        return mk_inst(tag, id_, rng.choice(protos), form, value, *rand_qualifiers(rng, qm))
+
+    kind = rng.choice(["add"] * 5 + ["del"] * 3 + ["replace"] * 2 + ["set"] * 5 + ["swap"] + ["parents"] * 3 + ["dflt"] + ["layer"])
+    style = rng.choice(["inplace", "rebind"])
+    i = rng.choice(he)
+    n = len(layers[i]["insts"])
+    if kind == "add":
+        return {"op": "add", "layer": i, "pos": rng.choice([0, n, rng.randint(0, n)]), "inst": new_inst(), "style": style}
+    if kind in ("del", "replace", "set", "swap"):
+        with_insts = [j for j in he if layers[j]["insts"]]
+        if not with_insts:
+            return None
+        i = rng.choice(with_insts)
+        n = len(layers[i]["insts"])
+        pos = rng.randrange(n)
+        c = layers[i]["insts"][pos]
+        if kind == "del":
+            return {"op": "del", "layer": i, "pos": pos, "style": style}
+        if kind == "replace":
+            ni = new_inst()
+            if rng.random() < 0.6:               # same key, another object/value
+                form, value = rand_inst_value(rng, cat[c["id"]])
+                ni = mk_inst(tag, c["id"], c["proto"], form, value, c.get("stack"))
+            return {"op": "replace", "layer": i, "pos": pos, "inst": ni}
+        if kind == "swap":
+            return {"op": "swap", "layer": i, "a": pos, "b": rng.randrange(n)} if n > 1 else None
+        f = rng.choice(["value", "value", "proto", "proto", "id", "stack"])
+        if f == "value":
+            form, value = rand_inst_value(rng, cat[c["id"]])
+            if rng.random() < 0.25:
+                form, value = c["form"], ("" if isinstance(c["value"], str) else [])      # now omitted
+            return {"op": "set", "layer": i, "pos": pos, "field": "value", "to": value, "form": form}
+        if f == "proto":
+            return {"op": "set", "layer": i, "pos": pos, "field": "proto", "to": rng.choice([p for p in protos if p != c["proto"]])}
+        if f == "stack":
+            return {"op": "set", "layer": i, "pos": pos, "field": "stack", "to": rng.choice([s for s in STACKS + [None] if s != c.get("stack")])}
+        same = [x for x in all_ids if x != c["id"] and (cat[x][2] == cat[c["id"]][2] or rng.random() < 0.1)]
+        if not same:
+            return None
+        to = rng.choice(same)
+        return {"op": "set", "layer": i, "pos": pos, "field": "id", "to": to, "doc": doc_of(to)}
+    if kind == "parents":
+        cands = [j for j in he if j > 0]
+        if not cands:
+            return None
+        i = rng.choice(cands)
+        old = layers[i]["parents"]
+        r = rng.random()
+        new = list(old)
+        if r < 0.35 or not old:
+            new.insert(rng.randint(0, len(new)), rng.randrange(i))            # one more parent (a duplicate is possible)
+        elif r < 0.6:
+            del new[rng.randrange(len(new))]
+        elif r < 0.8:
+            new[rng.randrange(len(new))] = rng.randrange(i)                   # re-target
+        else:
+            rng.shuffle(new)
+        return {"op": "parents", "layer": i, "to": new, "style": style} if new != old else None
+    if kind == "dflt":
+        simple = [e for e in h["custom"] if e[0] == "S"] + [s for e in h["custom"] if e[0] == "C" for s in e[3] if s[0] == "S"]
+        ids_used = set(used)
+        hot = [e for e in simple if e[1] in ids_used or any(e in cat[u][3] for u in ids_used if cat[u][0] == "C")]
+        if not simple:
+            return None
+        e = rng.choice(hot) if hot and rng.random() < 0.8 else rng.choice(simple)
+        to = rand_value(rng, KIND_OF_NAME.get(e[2], "int"))
+        return {"op": "dflt", "id": e[1], "to": to} if to != e[3] else None
+    # a new layer below older ones
+    kd = rng.choice(CL.KINDS[:4])
+    k = len(layers)
+    parents = list(dict.fromkeys(rng.randrange(k) for _ in range(rng.choice([0, 1, 1, 2]))))
+    L = {"kind": kd, "name": f"{PREFIX[kd]}{k}", "parents": parents, "insts": []}
+    if rng.random() < 0.6:
+        L["insts"].append(new_inst())
+    return {"op": "layer", "layer": L}
+
+
+def gen_history(rng):
+    """a generated document and 1-3 edit steps (1-3 edits each, then refresh()); lookups before the edits in most histories"""
+    r = rng.random()
+    h = gen_systematic(rng) if r < 0.35 else gen_random(rng, 4) if r < 0.85 else gen_values(rng)
+    qm = qualifier_mode(rng)
+    hist = {"h0": h, "observe0": rng.random() < 0.85, "steps": []}
+    tag = max_tag(h) + 1
+    for _ in range(rng.choice([1, 1, 1, 2, 2, 3])):
+        ops = []
+        for _ in range(rng.choice([1, 1, 2, 3])):
+            op = None
+            for _ in range(4):
+                op = rand_op(rng, h, tag, qm)
+                if op is not None:
+                    break
+            if op is None:
+                continue
+            tag += 1
+            ops.append(op)
+            h = CL.edit_desc(h, op)
+        if ops:
+            hist["steps"].append({"ops": ops, "observe": rng.random() < 0.8})
+    return hist
+
+
+def enum_histories():
+    """small scope, exhaustive: one parameter (the baud rate), protocol PR0.
+    (a) chain PR0 <- BV1 <- EV2, every placement none/generic/specific per layer x every single edit of one layer
+        (add generic, add specific, delete, value in place, protocol qualifier in place, another object in the same slot);
+    (b) PR0, FG1 <- PR0, BV2: every placement in PR0 and FG1 x BV2 with/without an own definition x every change of BV2's
+        parent refs among [], [PR0], [FG1], [PR0, FG1], [FG1, PR0]."""
+    out = []
+    pl = {"-": None, "g": None, "s": "PR0"}
+
+    def layer(kind, i, parents, place, tag):
+        insts = [] if place == "-" else [S(BR, pl[place], str(100 + tag), tag)]
+        return {"kind": kind, "name": f"{PREFIX[kind]}{i}", "parents": parents, "insts": insts}
+
+    for places in itertools.product("-gs", repeat=3):
+        h0 = {"custom": [], "layers": [layer("PROTOCOL", 0, [], places[0], 0), layer("BASE-VARIANT", 1, [0], places[1], 1),
+                                      layer("ECU-VARIANT", 2, [1], places[2], 2)]}
+        for i, p in enumerate(places):
+            ops = []
+            for q in "gs":
+                if q != p:
+                    for pos in ([0] if p == "-" else [0, 1]):
+                        ops.append({"op": "add", "layer": i, "pos": pos, "inst": S(BR, pl[q], "777", 9), "style": "inplace"})
+            if p != "-":
+                ops.append({"op": "del", "layer": i, "pos": 0, "style": "inplace"})
+                ops.append({"op": "set", "layer": i, "pos": 0, "field": "value", "to": "888"})
+                ops.append({"op": "set", "layer": i, "pos": 0, "field": "proto", "to": "PR0" if p == "g" else None})
+                ops.append({"op": "replace", "layer": i, "pos": 0, "inst": S(BR, pl[p], "999", 9)})
+            for op in ops:
+                out.append(("chain", {"h0": h0, "observe0": True, "steps": [{"ops": [op], "observe": True}]}))
+    plists = [[], [0], [1], [0, 1], [1, 0]]
+    for p0, p1, p2 in itertools.product("-gs", "-gs", "-g"):
+        if p0 == "-" and p1 == "-":
+            continue
+        for a in plists:
+            for b in plists:
+                if a == b:
+                    continue
+                h0 = {"custom": [], "layers": [layer("PROTOCOL", 0, [], p0, 0), layer("FUNCTIONAL-GROUP", 1, [0], p1, 1),
+                                              layer("BASE-VARIANT", 2, a, p2, 2)]}
+                out.append(("parents", {"h0": h0, "observe0": True,
+                                        "steps": [{"ops": [{"op": "parents", "layer": 2, "to": b, "style": "inplace"}], "observe": True}]}))
+    return out
+
+
+OBSERVABLES = [("refs", "most-specific"), ("gc", "protocol-first"), ("acc", "accessors"), ("vals", "defaults")]
+
+
+def eval_history(ctx, fam, hist, pending):
+    """load h0, then edit the live objects and refresh() step by step. Every observed state gets the full set of oracles of a
+    freshly loaded document (with the document as it is now); in addition (model-free) a state reached by edits must answer
+    every lookup exactly like a database freshly loaded from the same document."""
+    states = CL.history_states(hist)
+    docs = set().union(*[CL.docs_of(h) for h in states])
+    try:
+        db = CL.load(states[0], docs)
+    except Exception as e:
+        ctx.count("load-error:" + type(e).__name__)
+        ctx.disagree("load", {"hist": hist}, "loads", "foreign:" + type(e).__name__)
+        return
+    ctx.histo("history: steps", len(hist["steps"]))
+    if hist["observe0"]:
+        eval_doc(ctx, fam, states[0], pending, db=db, extra={"hist": {**hist, "steps": []}})
+    for j, st in enumerate(hist["steps"], 1):
+        h = states[j - 1]
+        try:
+            for op in st["ops"]:
+                ctx.histo("history: edit", op["op"] + (":" + op["field"] if op["op"] == "set" else ""))
+                CL.edit_live(h, db, op)
+                h = CL.edit_desc(h, op)
+            db.refresh()
+        except Exception as e:
+            ctx.count("history: refresh-error:" + type(e).__name__)
+            ctx.disagree("history-refresh", {"hist": hist, "step": j}, "refresh() succeeds", "foreign:" + type(e).__name__)
+            return
+        if not (st["observe"] or j == len(hist["steps"])):
+            continue
+        sub = {**hist, "steps": hist["steps"][:j]}
+        obs = eval_doc(ctx, fam, states[j], pending, db=db, extra={"hist": sub})
+        ctx.count("history: states observed after an edit")
+        if hist["observe0"] or any(s["observe"] for s in hist["steps"][:j - 1]):
+            ctx.count("history: ... with lookups made before the edit")
+        if obs is None or j < len(hist["steps"]):      # the comparison with a fresh load: in the last state only (cost)
+            continue
+        try:
+            fresh, _, _, _ = CL.observe(states[j], CL.load(states[j], docs))
+        except Exception as e:
+            ctx.disagree("load", {"h": states[j]}, "loads", "foreign:" + type(e).__name__)
+            continue
+        for i, o in obs.items():
+            f = fresh.get(i)
+            for key, clause in OBSERVABLES:
+                if f is not None and o[key] != f[key]:
+                    ctx.violate(clause, ["after-edit-and-refresh", key], "value", {"h": states[j], "layer": i, "hist": sub},
+                                f"layer {states[j]['layers'][i]['name']}: after the edits and refresh() {key} differs from a database freshly "
+                                f"loaded from the same document: {brief_diff(o[key], f[key])}")
+
+
+def brief_diff(a, b):
+    if isinstance(a, list) and isinstance(b, list) and len(a) == len(b):
+        k = next(j for j in range(len(a)) if a[j] != b[j])
+        return f"item {k}: {str(a[k])[:200]} vs fresh {str(b[k])[:200]}"
+    return f"{str(a)[:200]} vs fresh {str(b)[:200]}"
+
+
 # ----------------------------------------------------------------------------- evaluation of one document
 
 def spec_entry(cat, id_):
@@ -306,17 +542,20 @@ def omitted_sub(value, idx):
     return idx >= len(value) or value[idx] == ""
 
 
-def eval_doc(ctx, fam, h, pending):
-    """run the implementation; model-free oracles now, the model/spec comparison after the driver has answered"""
+def eval_doc(ctx, fam, h, pending, db=None, extra=None):
+    """run the implementation; model-free oracles now, the model/spec comparison after the driver has answered.
+    `db`: a database that already holds `h` (a state of an edit history; `extra` = the history, added to every witness)"""
+    extra = extra or {}
     try:
-        db = CL.load(h)
+        if db is None:
+            db = CL.load(h)
         obs, problems, names, protos = CL.observe(h, db)
     except Exception as e:  # a valid document must load
         ctx.count("load-error:" + type(e).__name__)
-        ctx.disagree("load", h, "loads", "foreign:" + type(e).__name__)
-        return
+        ctx.disagree("load", {"h": h, **extra}, "loads", "foreign:" + type(e).__name__)
+        return None
     for pr in problems:
-        ctx.disagree("raw:" + pr[0], h, "as written", pr)
+        ctx.disagree("raw:" + pr[0], {"h": h, **extra}, "as written", pr)
     cat = CL.catalog(h)
     inst_by_tag = {c["tag"]: (c, li) for li, L in enumerate(h["layers"]) for c in L["insts"]}
     memo = {}
@@ -324,9 +563,10 @@ def eval_doc(ctx, fam, h, pending):
         L = h["layers"][i]
         refs = o["refs"]
         if isinstance(refs, str):
-            ctx.violate("most-specific", ["comparam_refs-raises"], refs, {"h": h, "layer": i}, "comparam_refs raises")
+            ctx.violate("most-specific", ["comparam_refs-raises"], refs, {"h": h, "layer": i, **extra}, "comparam_refs raises")
             continue
-        ctx.case((json.dumps(h, sort_keys=True), i), nontrivial=len(refs) > 0)
+        o["wit"] = extra
+        ctx.case((json.dumps(h, sort_keys=True), i, json.dumps(extra, sort_keys=True) if extra else ""), nontrivial=len(refs) > 0)
         ctx.histo("family", fam)
         ctx.histo("layers_per_doc", len(h["layers"]))
         ctx.histo("visible_params", min(len(refs), 8))
@@ -334,13 +574,14 @@ def eval_doc(ctx, fam, h, pending):
         model_free(ctx, h, i, o, cat, inst_by_tag, names, protos)
         choices = [ch for _, ch in o["acc"]]
         pending.append((fam, h, i, o, names, protos, CL.request_line(h, i, names, protos, choices, memo)))
+    return obs
 
 
 def model_free(ctx, h, i, o, cat, inst_by_tag, names, protos):
     """the property statement evaluated on the implementation's own observables"""
     L = h["layers"][i]
     refs = o["refs"]
-    wit = {"h": h, "layer": i}
+    wit = {"h": h, "layer": i, **o.get("wit", {})}
     # one definition per (id, protocol)
     keys = [(r[1], r[2]) for r in refs]
     if len(set(keys)) != len(keys):
@@ -442,7 +683,7 @@ def judge(ctx, item, rep):
         ctx.disagree("driver", line[:300], rep, "request not understood")
         return
     ctx.traces += 1
-    wit = {"h": h, "layer": i}
+    wit = {"h": h, "layer": i, **o.get("wit", {})}
     tags = [r[0] for r in o["refs"]]
     # ---- correspondence
     if tags != m["refs"]:
@@ -519,6 +760,23 @@ def run(ctx):
         eval_doc(ctx, "corpus:" + name, h, pending)
     flush(ctx, pending)
     quick = ctx.tier == "quick"
+    enum = enum_histories()
+    if quick:       # quick tier: a third of the enumeration (which third depends on the seed), all of it in the thorough tier
+        enum = [e for k, e in enumerate(enum) if k % 3 == int(ctx.seed) % 3]
+    for sub, hist in enum:
+        eval_history(ctx, "enum-history:" + sub, hist, pending)
+        if len(pending) >= 400:
+            flush(ctx, pending)
+    flush(ctx, pending)
+    ctx.notes.append(f"enum-history: {len(enum)} histories, {round(time.time() - t0, 1)} s elapsed")
+    rng = ctx.sub_rng("history")
+    nh = 400 if quick else 4000
+    for j in range(nh):
+        eval_history(ctx, "history", gen_history(rng), pending)
+        if len(pending) >= 400:
+            flush(ctx, pending)
+    flush(ctx, pending)
+    ctx.notes.append(f"history: {nh} histories, {round(time.time() - t0, 1)} s elapsed")
     budget = {"systematic": 1500 if quick else 14000, "random": 2500 if quick else 30000, "values": 1200 if quick else 12000}
     for fam, n in budget.items():
         rng = ctx.sub_rng(fam)
@@ -541,6 +799,9 @@ def replay(ctx, data):
     clause = data["signature"]["clause"]
     sub = common.Ctx(ctx.pid, ctx.tier, ctx.seed)
     pending = []
-    eval_doc(sub, "replay", w["h"], pending)
+    if "hist" in w:
+        eval_history(sub, "replay", w["hist"], pending)
+    else:
+        eval_doc(sub, "replay", w["h"], pending)
     flush(sub, pending)
     return not any(v["signature"]["clause"] == clause for v in sub.violations) and not sub.disagreements
